@@ -2,6 +2,7 @@
 
 from __future__ import annotations
 
+import collections
 import copy
 import itertools
 import json
@@ -101,10 +102,29 @@ def check_instance(ctx, g, where="ambient"):
 
 
 # ------------------------------------------------------------------- judging
-def _attempt(path, tag, coords):
+CONTAINERS = ("tuple_inner", "tuple_all", "deque_inner", "mixed")
+
+
+def _contain(c, container, depth=0):
+    """The same numeric structure handed over in other sequence containers than lists (``list(zip(times, freqs))``
+    gives a list of tuples, shapely coords are tuples, a ring buffer is a deque)."""
+    if container == "list" or not isinstance(c, list):
+        return c
+    leaf = all(not isinstance(v, list) for v in c)
+    inner = [_contain(v, container, depth + 1) for v in c]
+    if container == "tuple_all" or (container == "tuple_inner" and leaf) or (container == "mixed" and depth % 2 == 1):
+        return tuple(inner)
+    if container == "deque_inner" and leaf:
+        return collections.deque(inner)
+    return inner
+
+
+def _attempt(path, tag, coords, container="list"):
     from soundevent import data
 
     cls = data.geometries.GEOMETRY_MAPPING[tag]
+    if path != "json":
+        coords = _contain(copy.deepcopy(coords), container)
     try:
         if path == "constructor":
             return "ok", cls(coordinates=copy.deepcopy(coords))
@@ -117,16 +137,19 @@ def _attempt(path, tag, coords):
         return "exc", e
 
 
-def judge(ctx, tag, coords, paths=PATHS):
+def judge(ctx, tag, coords, paths=PATHS, container="list"):
     from pydantic import ValidationError
 
     from soundevent import data
 
     want = ref_valid(tag, coords)
     spec = {"kind": "validate", "type": tag, "coordinates": coords}
+    if container != "list":
+        spec["container"] = container
+        ctx.mon("attempt.other_containers")
     outcomes = {}
     for path in paths:
-        st, val = _attempt(path, tag, coords)
+        st, val = _attempt(path, tag, coords, container)
         ctx.mon(f"attempt.{path}")
         outcomes[path] = st
         sp = dict(spec, path=path)
@@ -319,6 +342,10 @@ def run(ctx):
                 op = op2 if op == "none" else f"{op}+{op2}"
             ctx.case((tag, op, "valid" if ref_valid(tag, c) else "invalid"), {"type": tag, "coordinates": c}, nontrivial=op != "none")
             judge(ctx, tag, c)
+            if i % 3 == 0 and isinstance(c, list):
+                cont = CONTAINERS[(i // 3) % len(CONTAINERS)]
+                ctx.case((tag, op, "valid" if ref_valid(tag, c) else "invalid", cont), {"type": tag, "coordinates": c, "container": cont}, nontrivial=op != "none")
+                judge(ctx, tag, c, container=cont)
             if i % 5 == 0:
                 try:
                     g = geoms.build(base)
@@ -354,6 +381,6 @@ def replay(ctx, w):
     s = w["spec"]
     ctx.case("replay", s)
     if s.get("kind") == "validate":
-        judge(ctx, s["type"], s["coordinates"])
+        judge(ctx, s["type"], s["coordinates"], container=s.get("container", "list"))
     elif s.get("kind") == "instance":
         judge(ctx, s["g"]["type"], s["g"]["coordinates"])
